@@ -76,6 +76,9 @@ deriving DecidableEq, Repr
 structure Prog where
   /-- `ff = getattr(input_object[0], "units", NULL_UNIT)`: index 0 -/
   ffFromFirst : Bool
+  /-- the "units are mixed" test is `any(ff != getattr(_, "units", NULL_UNIT) for _ in input_object)`:
+      it looks at EVERY element (anything else: the interpreter refuses to guess) -/
+  mixedTestAll : Bool
   /-- the result is built as `unyt_array(np.array(ret), ff, …)` in the mixed branch -/
   labelIsFf : Bool
   /-- what the branch "no unit differs" stores per element (`np.array(input_object)` → raw) -/
@@ -143,11 +146,11 @@ def allAbs : List ElemAbs :=
   allKinds.flatMap (fun k => [⟨k, true, true⟩, ⟨k, true, false⟩, ⟨k, false, true⟩, ⟨k, false, false⟩])
 
 /-- the decidable obligation on a regenerated program: `ff` is the first element's unit and labels
-    the result, the uniform branch keeps the readings, and the loop body converts EVERY element —
+    the result, the mixed-units test looks at every element, the uniform branch keeps the readings, and the loop body converts EVERY element —
     whatever its dtype kind, whether or not its unit equals / is commensurable with `ff` — with
     `in_units(ff)` under the `UnitConversionError → IterableUnitCoercionError` guard -/
 def progOk (P : Prog) : Bool :=
-  P.ffFromFirst && P.labelIsFf && P.elseVal == .raw &&
+  P.ffFromFirst && P.mixedTestAll && P.labelIsFf && P.elseVal == .raw &&
     allAbs.all (fun a => bodyAction P.body a == .emit .inUnits true)
 
 section sem
@@ -190,6 +193,7 @@ def coerceProg (P : Prog) (unitNe : CoItem K → CoItem K → Bool) (items : Lis
   | some ffe =>
     let ff := ffe.item
     let label := if P.labelIsFf then some ff else none
+    if !P.mixedTestAll then .error .RuntimeError else
     if items.any (fun it => unitNe ff it.item) then
       match mapE (fun it => match bodyAction P.body (absOf unitNe ff it) with
           | .emit v g => v.apply ff it.item g
@@ -206,11 +210,11 @@ end sem
 
 /-- the program as it stands in unyt today (reference for the examples; the driver runs the
     REGENERATED `Generated.c16CoerceProg`) -/
-def refProg : Prog := ⟨true, true, .raw, .append .inUnits true⟩
+def refProg : Prog := ⟨true, true, true, .raw, .append .inUnits true⟩
 
 /-- the shape of a "fast path" body: `if kind == 'f' and same_dimensions: append(rescale); continue` -/
 def fastPathProg : Prog :=
-  ⟨true, true, .raw,
+  ⟨true, true, true, .raw,
    .seq (.ite (.and (.kindIs .f) .sameDim) (.seq (.append .rescale false) .continue_) .skip)
         (.append .inUnits true)⟩
 
